@@ -134,6 +134,46 @@ func genC11(r *common.RNG) *c11Scenario {
 	return sc
 }
 
+// systematicC11: two clients; the second runs to completion at every operation boundary of the
+// first (and the other way round), for every pair of calls on one id, with the id stored
+// beforehand or not.
+func systematicC11() []*c11Scenario {
+	d, d2 := c11Contents[3], c11Contents[4]
+	callsA := []c11Call{{"put", 0, d}, {"put", 0, d2}, {"put", 0, []byte{}}}
+	callsB := []c11Call{{"getbytes", 0, nil}, {"getfile", 0, nil}, {"get", 0, nil}, {"put", 0, d}, {"put", 0, d2}, {"put", 1, d}}
+	var out []*c11Scenario
+	for _, pre := range []int{0, 1, 2} {
+		for _, a := range callsA {
+			for _, b := range callsB {
+				for k := 0; k <= 18; k++ {
+					for _, first := range []int{0, 1} {
+						sc := &c11Scenario{Pre: map[string][]byte{}, Clients: [][]c11Call{{a}, {b, b}}}
+						switch pre {
+						case 1:
+							sc.Pre["a:"+idHex(0)] = entryBytes(0, d, 1700000000000000111)
+							sc.Pre["d:"+outHex(d)] = d
+						case 2: // stored for another id: the output exists already
+							sc.Pre["a:"+idHex(2)] = entryBytes(2, d, 1700000000000000222)
+							sc.Pre["d:"+outHex(d)] = d
+						}
+						for i := 0; i < k; i++ {
+							sc.Schedule = append(sc.Schedule, first)
+						}
+						for i := 0; i < 60; i++ {
+							sc.Schedule = append(sc.Schedule, 1-first)
+						}
+						for i := 0; i < 60; i++ {
+							sc.Schedule = append(sc.Schedule, first)
+						}
+						out = append(out, sc)
+					}
+				}
+			}
+		}
+	}
+	return out
+}
+
 type c11Runner struct {
 	f   *common.Flags
 	res *common.Result
@@ -581,6 +621,9 @@ func runC11(f *common.Flags, res *common.Result, m *mdl) {
 						}
 					}
 				}
+				for _, sc := range systematicC11() {
+					rn.one(sc, "systematic")
+				}
 				r := common.NewRNG(f.Seed)
 				for i := 0; i < nSched; i++ {
 					rn.one(genC11(r), "schedule")
@@ -595,5 +638,5 @@ func runC11(f *common.Flags, res *common.Result, m *mdl) {
 	if real != "" && f.Replay == "" {
 		rn.stress(real, procs, routines, millis)
 	}
-	res.Rule = fmt.Sprintf("(i) %d scenarios of 2-4 clients x 1-3 calls (Put/Get/GetBytes/GetFile over 1-3 ids, per id one content (re-stores) or several, some ids stored beforehand) with a schedule drawn from the seed, replayed on the real code under the os shim's cooperative scheduler (one file operation per turn) and on the interleaved semantics of the model: the sequence of (client, operation), every call's result and every file's final content are compared; direct oracles: returned bytes were stored for that id by some Put, no miss for ids only re-stored identically, every stored id readable at the end, no failing Put, no panic; (ii) %d processes x %d goroutines for %d ms on one directory with self-describing payloads and the same oracles; a scenario is non-trivial when it contains at least two Puts", nSched, procs, routines, millis)
+	res.Rule = fmt.Sprintf("(i) a systematic family (two clients on one id: every pair of a Put with a lookup or another Put, the id stored beforehand / its output stored for another id / nothing stored; one client runs to completion at each of the first 19 operation boundaries of the other, both ways), then %d scenarios of 2-4 clients x 1-3 calls (Put/Get/GetBytes/GetFile over 1-3 ids, per id one content (re-stores) or several, some ids stored beforehand) with a schedule drawn from the seed, replayed on the real code under the os shim's cooperative scheduler (one file operation per turn) and on the interleaved semantics of the model: the sequence of (client, operation), every call's result and every file's final content are compared; direct oracles: returned bytes were stored for that id by some Put, no miss for ids only re-stored identically, every stored id readable at the end, no failing Put, no panic; (ii) %d processes x %d goroutines for %d ms on one directory with self-describing payloads and the same oracles; a scenario is non-trivial when it contains at least two Puts", nSched, procs, routines, millis)
 }
